@@ -208,12 +208,23 @@ impl Drop for Src {
 }
 
 fn make_pipeline(ctl: &Arc<Ctl>, fail: Option<usize>, delays: bool) -> Pipeline<usize, usize> {
+    make_pipeline_slow(ctl, fail, delays, None)
+}
+
+/// `slow`: (item, milliseconds) - one item whose processing takes very long while the consumer
+/// waits (a consumer-side time-out must not end the stream)
+fn make_pipeline_slow(ctl: &Arc<Ctl>, fail: Option<usize>, delays: bool, slow: Option<(usize, u64)>) -> Pipeline<usize, usize> {
     let c = ctl.clone();
     Arc::new(move |x: usize| {
         let w = WORKER.with(|c| c.get());
         c.ev(json!({"e": "Call", "w": w, "x": x, "k": true}));
         if Some(x) == fail {
             panic!("verif: injected processing failure at item {x}");
+        }
+        if let Some((item, ms)) = slow {
+            if item == x {
+                std::thread::sleep(Duration::from_millis(ms));
+            }
         }
         if delays {
             jitter(&c, w);
@@ -486,12 +497,12 @@ fn run_controlled(w: usize, n: usize, sched: &[String], blocking: bool, drain: b
 
 /// Free-running run: no controller; random per-item delays and yields at the hook
 /// points, a consumer that is sometimes slow, optional drop after `drop_after` items.
-fn run_free(w: usize, n: usize, seed: u64, drop_after: Option<usize>, slow: f64) -> Value {
+fn run_free(w: usize, n: usize, seed: u64, drop_after: Option<usize>, slow: f64, slow_item: Option<(usize, u64)>) -> Value {
     let ctl = Ctl::new(Mode::Free, w, seed, 0.4);
     let c2 = ctl.clone();
     install(Some(Arc::new(move |t, p, i, k| on_point(&c2, t, p, i, k))));
     let src = Src { next: 0, n, ctl: ctl.clone() };
-    let mut pipe = src.pipe(make_pipeline(&ctl, None, true), w as u8);
+    let mut pipe = src.pipe(make_pipeline_slow(&ctl, None, true, slow_item), w as u8);
     quiet_panics();
     let mut rng = ChaCha8Rng::seed_from_u64(seed ^ 0x5eed);
     let mut got = 0usize;
@@ -527,7 +538,7 @@ fn run_free(w: usize, n: usize, seed: u64, drop_after: Option<usize>, slow: f64)
         while !g.all_exited && w > 0 {
             let (g2, _) = ctl.cv.wait_timeout(g, Duration::from_millis(10)).unwrap();
             g = g2;
-            if t0.elapsed() > Duration::from_secs(10) {
+            if t0.elapsed() > Duration::from_secs(10 + slow_item.map(|s| s.1 / 1000).unwrap_or(0)) {
                 g.log.push(json!({"e": "Stuck", "w": 0, "x": 3, "k": false}));
                 break;
             }
@@ -546,7 +557,8 @@ pub fn exec(case: &Value) -> Vec<Value> {
     let mut r = if mode == "free" {
         let d = case.get("drop_after").and_then(|x| x.as_u64()).map(|x| x as usize);
         let slow = case.get("slow").and_then(|x| x.as_f64()).unwrap_or(0.2);
-        run_free(w, n, case.get("seed").and_then(|x| x.as_u64()).unwrap_or(0), d, slow)
+        let slow_item = case.get("slow_item").and_then(|x| x.as_u64()).map(|k| (k as usize, case.get("slow_ms").and_then(|x| x.as_u64()).unwrap_or(6500)));
+        run_free(w, n, case.get("seed").and_then(|x| x.as_u64()).unwrap_or(0), d, slow, slow_item)
     } else {
         let sched: Vec<String> = case["sched"]
             .as_array()
